@@ -71,7 +71,7 @@ def run_mutant(lane, m, props, workers, allprops):
             res["status"] = "harness-build-failed"
             res["detail"] = out[-400:]
             return res
-        env = dict(ENV, VERIF_DIR=lane + "/v", VERIF_BIN=lane + "/verif", VERIF_WORKERS=str(workers), VERIF_FAILFAST="1")
+        env = dict(ENV, VERIF_DIR=lane + "/v", VERIF_BIN=lane + "/verif", VERIF_WORKERS=str(workers), VERIF_FAILFAST="1", VERIF_CASE_TIMEOUT="45")
         order = sorted(props, key=lambda p: COST.get(p, 99))
         if allprops:
             order += [p for p in NONRACE if p not in order]
